@@ -1512,7 +1512,7 @@ def anchor_cases(rng, fields):
                 if A:
                     A[-1] = 1 + rng.below(p - 1)
                 cases.append(("padic.eval", "padic_eval", fk, p, [A]))
-                if p ** max(n, 1) < 1 << 63:
+                if fk != "mI" and p ** max(n, 1) < 1 << 63:
                     cases.append(("padic.eval.u64", "padic_eval", fk, p, [list(A)]))
                 E = sum(c * p ** i for i, c in enumerate(A))
                 if E:
